@@ -621,7 +621,13 @@ def d_validate( ctx ):
             if isinstance( c, ast.Compare ):
                 left = c.left
                 for op, r in zip( c.ops, c.comparators ):
-                    out.append(( left, op, r, c ))
+                    # orientation-normalised: a > b is reported as b < a
+                    if isinstance( op, ast.Gt ):
+                        out.append(( r, ast.Lt(), left, c ))
+                    elif isinstance( op, ast.GtE ):
+                        out.append(( r, ast.LtE(), left, c ))
+                    else:
+                        out.append(( left, op, r, c ))
                     left = r
         return out
     found = { 'beg>=0': None, 'beg<cnt': None, 'elm<=cnt': None, 'beg<end': None, 'wend<=endactual': None }
